@@ -481,7 +481,15 @@ impl PacketReceiver for IceConn {
                 Some(IceSocketWrapper::TcpStream(_, _, _))
             )
         };
-        if current_remote.port() == 0 || (socket_is_inbound_tcp && current_remote != addr) {
+        // With latching on, RTP / RTCP never take this shortcut: while the remote is
+        // still unknown (port 0: held m= line, transport created before any SDP
+        // address) the destination is chosen by the latch rules below - expected SSRC,
+        // probation, RTP only - like every other move of the RTP destination.
+        let media_under_latch =
+            (128..192).contains(&first_byte) && self.latch_on_rtp.load(Ordering::Relaxed);
+        if (current_remote.port() == 0 && !media_under_latch)
+            || (socket_is_inbound_tcp && current_remote != addr)
+        {
             *self.remote_addr.write() = addr;
         } else if addr != current_remote {
             // Note: We no longer automatically switch the remote address just by receiving
